@@ -66,7 +66,7 @@ def norm(n):
 
 
 def dump(repo, filt, work):
-    cmd = ['clang++-14', '-std=gnu++17', '-fsyntax-only', '-w', '-DMP_USE_HASH', '-I', os.path.join(repo, 'include'),
+    cmd = ['clang++-14', '-std=gnu++17', '-fsyntax-only', '-w', '-DMP_USE_HASH', '-DNDEBUG', '-I', os.path.join(repo, 'include'),
            '-I', os.path.join(repo, 'src'), '-Xclang', '-ast-dump=json', '-Xclang', '-ast-dump-filter=' + filt,
            os.path.join(repo, 'src', 'expr.cc')]
     p = subprocess.run(cmd, capture_output=True, text=True)
@@ -578,6 +578,21 @@ def main():
         raise TranslateError('HashCombine instantiations disagree or are missing: %s' % sorted(terms))
     comb = terms.pop()
 
+    # helper members of the handle classes the loop handlers rely on (include/mp/expr.h): syntax trees only
+    helpers = {}
+    for clsname, wanted in (('Function', ('operator==', 'operator!=', 'name')),
+                            ('PLTerm', ('num_breakpoints', 'breakpoint', 'slope', 'arg')),
+                            ('CallExpr', ('function', 'num_args', 'arg')),
+                            ('StringLiteral', ('value',))):
+        ds = [d for d in dump(repo, 'mp::' + clsname, work) if d.get('kind') == 'CXXRecordDecl' and d.get('name') == clsname and d.get('completeDefinition')]
+        if len(ds) != 1:
+            raise TranslateError('class mp::%s not found' % clsname)
+        for w in wanted:
+            ms = [m for m in kids(ds[0]) if m.get('kind') == 'CXXMethodDecl' and m.get('name') == w and body_of(m) is not None]
+            if len(ms) != 1:
+                raise TranslateError('mp::%s::%s: expected exactly one definition, found %d' % (clsname, w, len(ms)))
+            helpers['%s_%s' % (clsname, {'operator==': 'eq', 'operator!=': 'ne'}.get(w, w))] = sx(ms[0])
+
     # ---- emit
     L = ['/- GENERATED by translators/gen_expr_c18.py from src/expr.cc, include/mp/basic-expr-visitor.h,',
          '   include/mp/utils-hash.h (clang-14 typed AST of the instantiated code). Do not edit. -/',
@@ -619,6 +634,11 @@ def main():
                 L.append('/-- normalised syntax tree of `%s::%s` -/' % (name, key))
                 L.append('def %s : Sx :=\n%s' % (nm, sx_lean(b[2])))
                 L.append('')
+    for key, t in sorted(helpers.items()):
+        shapes.append('helperShape_' + key)
+        L.append('/-- normalised syntax tree of `mp::%s` (include/mp/expr.h) -/' % key.replace('_', '::', 1))
+        L.append('def helperShape_%s : Sx :=\n%s' % (key, sx_lean(t)))
+        L.append('')
     L.append('end MpVerif.Gen.C18')
     text = '\n'.join(L) + '\n'
     if '--freeze' in sys.argv:
@@ -631,6 +651,8 @@ def main():
             for key, b in sorted(res[name][1].items()):
                 if b[0] == 'opaque':
                     F.append('def %sShape_%s : Sx :=\n%s\n' % (lname, re.sub(r'\W', '_', key), sx_lean(b[2])))
+        for key, t in sorted(helpers.items()):
+            F.append('def helperShape_%s : Sx :=\n%s\n' % (key, sx_lean(t)))
         F.append('end MpVerif.C18.Frozen')
         open(fz, 'w').write('\n'.join(F) + '\n')
     old = open(out).read() if os.path.exists(out) else None
